@@ -33,6 +33,8 @@ class NLRI(object):
 
     @staticmethod
     def construct_prefix_v4(masklen, prefix_str):
+        if not 0 <= masklen <= 32:
+            raise ValueError('IPv4 prefix length %s is not in 0..32' % masklen)
         ip_hex = struct.pack('!I', netaddr.IPNetwork(prefix_str).value)
         if 16 < masklen <= 24:
             ip_hex = ip_hex[0:3]
